@@ -42,13 +42,18 @@ func dumpReal(q *queue.VerifQueue[int, *item]) string {
 }
 
 func (r *runner) heapSeq(ops []hop, label string) {
+	if r.stop() {
+		return
+	}
 	base := time.Unix(1700000000, 0).UTC()
 	q := queue.NewVerifQueue[int, *item]()
 	lines := []string{"h.reset"}
 	want := []string{"ok"}
 	id := 0
 	bad := ""
-	func() {
+	done := make(chan struct{})
+	go func() {
+		defer close(done)
 		defer func() {
 			if p := recover(); p != nil {
 				bad = fmt.Sprint("panic: ", p)
@@ -92,6 +97,15 @@ func (r *runner) heapSeq(ops []hop, label string) {
 			}
 		}
 	}()
+	select {
+	case <-done:
+	case <-time.After(2 * time.Second):
+		r.res.Violate("queue-heap-hang", "an operation of the queue did not return", map[string]any{"kind": "heap", "ops": lines})
+		r.hangs += 4
+		r.abort = true
+		r.res.Note("a queue operation hung: remaining cases skipped")
+		return
+	}
 	r.res.Count("heap:"+strings.Join(lines, ";"), len(ops) >= 3)
 	r.res.Hit("case:heap-" + label)
 	for _, o := range ops {
